@@ -173,12 +173,12 @@ func (r *Router[T]) URL(strict bool, pattern string, params map[string]string) (
 
 	switch {
 	case len(pattern) == 0: // 无需要处理
-	case len(params) == 0:
-		buf.WString(pattern)
-	case strict:
+	case strict: // 即使 params 为空，也需要检测路由项是否存在。
 		if err := r.tree.URL(&buf, pattern, params); err != nil {
 			return "", err
 		}
+	case len(params) == 0:
+		buf.WString(pattern)
 	default:
 		if err := emptyInterceptors.URL(&buf, pattern, params); err != nil {
 			return "", err
